@@ -4,7 +4,8 @@ A program is a dict  tag -> list of actions; tag -1 is construct_model, tags
 0..n-1 are the handlers of the scheduled events.  Actions:
 
   ('s', kind, d, prio, child)   schedule event `child`: kind now | rel | abs,
-                                time = clock + d  (d in time units)
+                                time = clock + d  (d in time units); kind at:
+                                schedule_event_abs(start + d) whatever the clock
   ('c', target)                 cancel event `target` if it was ever created
   ('ill', what)                 illegal request: past | negdelay | nanabs |
                                 nanrel | nanev | badtype
@@ -207,6 +208,9 @@ def make_model_class():
                     elif kind == "rel":
                         self.ev[ch] = sim.schedule_event_rel(T(d), self, "h",
                                                              p, tag=ch)
+                    elif kind == "at":
+                        self.ev[ch] = sim.schedule_event_abs(
+                            self.base + T(d), self, "h", p, tag=ch)
                     else:
                         self.ev[ch] = sim.schedule_event_abs(
                             sim.simulator_time + T(d), self, "h", p, tag=ch)
@@ -304,7 +308,8 @@ class Ref:
             if a[0] == "s":
                 _, kind, d, p, ch = a
                 self.seq += 1
-                self.pend.append((self.clock + d, -p, self.seq, ch))
+                self.pend.append((d if kind == "at" else self.clock + d, -p,
+                                  self.seq, ch))
                 self.created.add(ch)
             elif a[0] == "c":
                 for e in list(self.pend):
